@@ -72,6 +72,8 @@ Section Serve.
 Variables cmd astate : Type.
 Variable run : cmd -> astate -> astate * bool.   (* body of a command: new state, true = it raised *)
 Variable decode : bytes -> payload cmd.          (* UTF-8 + JSON decoding, command lookup, argument-name check *)
+Variable talks : cmd -> astate -> bool.          (* the command prints to sys.stdout / sys.stderr (= WriteToConn -> send on the
+                                                    client's connection) while it runs, e.g. manager.log under -v *)
 Variable sh : shape.
 
 Definition classify (b : bytes) : received cmd :=
@@ -100,7 +102,13 @@ Definition dispatch (d : daemon astate) (c : conn) (p : payload cmd) : daemon as
   | PCommandNotStr => respond d c ErrNotStr
   | PUnknown => respond d c ErrUnknown
   | PBadArgs is_stop => if args_validated sh then respond d c ErrBadArgs else crash d c is_stop
-  | PCmd k => let '(a', raised) := run k (app d) in
+  | PCmd k =>
+      if talks k (app d) && negb (stays c) && negb (stdout_guarded sh)
+      then (* WriteToConn.write -> send raises BrokenPipeError inside the command; `except Exception` tries to send
+              the crash report on the same dead connection, which raises again; `finally` unlinks *)
+           crash d c false
+      else
+              let '(a', raised) := run k (app d) in
               let d' := mk_daemon (ipc d) a' (status_file d) (ph d) in
               if raised then crash d' c false else respond d' c (Done k)
   | PStop => (* cmd_stop unlinks the status file, the reply is sent (or not), sys.exit(0) *)
@@ -135,6 +143,56 @@ Fixpoint serve (d : daemon astate) (cs : list conn) : daemon astate * list (repl
 
 Definition start (a : astate) : daemon astate := mk_daemon ipc_init a true Serving.
 
+(* ------------------------------------------------------------------ clients that neither send nor close; idle exit *)
+(* [Stalled chunks]: a client connects, writes the chunks and then does nothing (keeps the connection open).
+   [IdleTimeout]: nobody connects for longer than the daemon's --timeout (only when one is configured: the
+   listening socket has that timeout, accept raises TimeoutError -> IPCException, which nothing in serve catches).
+   The ACCEPTED connection is a fresh blocking socket: it has a receive timeout only iff [conn_timeout]. *)
+Inductive event := Conn (c : conn) | Stalled (chunks : list bytes) | IdleTimeout.
+
+(* [blocked]: the single-threaded loop sits in recv on a stalled connection: it neither accepts nor times out *)
+Record edaemon := mk_e { core : daemon astate; blocked : bool }.
+
+Definition step (idle : bool) (e : edaemon) (ev : event) : edaemon * reply cmd :=
+  if blocked e then (e, NoReply)
+  else
+  let d := core e in
+  match ev with
+  | Conn c => let '(d', r) := serve_conn d c in (mk_e d' false, r)
+  | IdleTimeout =>
+      match ph d with
+      | Serving => if idle then (mk_e (die d) false, NoReply) else (e, NoReply)
+      | Exited => (e, NoReply)
+      end
+  | Stalled chunks =>
+      match ph d with
+      | Exited => (e, NoReply)
+      | Serving =>
+          let i0 := if reset_on_accept sh then ipc_init else ipc d in
+          match read_bytes_open i0 (feed chunks) with
+          | OStructError => (mk_e (die (mk_daemon i0 (app d) (status_file d) Serving)) false, NoReply)
+          | OFrame _ _ _ => (* a complete request arrived before the client stalled: served like any waiting client *)
+              let '(d', r) := serve_conn d (mk_conn chunks true) in (mk_e d' false, r)
+          | OWaiting i1 =>
+              let d1 := mk_daemon i1 (app d) (status_file d) Serving in
+              if conn_timeout sh
+              then (* recv raises TimeoutError, an OSError, from receive() *)
+                   if recv_catch_os sh then (mk_e d1 false, NoReply) else (mk_e (die d1) false, NoReply)
+              else (mk_e d1 true, NoReply)
+          end
+      end
+  end.
+
+Fixpoint steps (idle : bool) (e : edaemon) (evs : list event) : edaemon * list (reply cmd) :=
+  match evs with
+  | [] => (e, [])
+  | ev :: evs' => let '(e1, r) := step idle e ev in
+                  let '(e2, rs) := steps idle e1 evs' in (e2, r :: rs)
+  end.
+
+Definition estart (a : astate) : edaemon := mk_e (start a) false.
+
+
 (* what a connection asks for, seen in isolation (fresh reassembly state) *)
 Definition conn_request (c : conn) : option (received cmd) :=
   match read_bytes ipc_init (feed (sent c)) with
@@ -149,7 +207,20 @@ Definition is_stop_request (c : conn) : bool :=
 Definition is_fault (c : conn) : bool :=
   match conn_request c with Some (Got (PCmd _)) | Some (Got PStop) => false | _ => true end.
 
+(* the request an event carries, seen in isolation; a stalled client that never completes a frame carries none *)
+Definition event_is_stop (ev : event) : bool :=
+  match ev with
+  | Conn c => match conn_request c with Some (Got PStop) => true | _ => false end
+  | Stalled chunks => match read_bytes_open ipc_init (feed chunks) with
+                      | OFrame _ _ _ => match conn_request (mk_conn chunks true) with Some (Got PStop) => true | _ => false end
+                      | _ => false
+                      end
+  | IdleTimeout => false
+  end.
+Definition event_is_idle (ev : event) : bool := match ev with IdleTimeout => true | _ => false end.
+
 End Serve.
+Arguments mk_e {astate}. Arguments core {astate}. Arguments blocked {astate}.
 
 Definition serve_repaired (sh : shape) : bool :=
   recv_catch_os sh && recv_catch_unicode sh && reset_on_accept sh && args_validated sh && send_guarded sh.
